@@ -57,7 +57,7 @@ def main():
             f.write(diff)
         files = []
         for fn in sorted(os.listdir(out)):
-            if fn.endswith(".qasm") or fn.startswith(("patch", "notes")):
+            if fn.endswith(".qasm") or fn.startswith(("patch", "notes", "note")):
                 continue
             if fn.startswith("demo%s" % k) or not fn.startswith("demo"):
                 if os.path.isdir(os.path.join(out, fn)):
@@ -65,7 +65,13 @@ def main():
                 else:
                     shutil.copy(os.path.join(out, fn), os.path.join(dest, fn))
                 files.append(fn)
-        notes = open(os.path.join(out, "notes%s.md" % k)).read()
+        npath = os.path.join(out, "notes%s.md" % k)
+        if not os.path.exists(npath):
+            # round 6 delivered a plain noteK.txt: the whole note is what is needed to manifest
+            txt = open(os.path.join(out, "note%s.txt" % k)).read().strip()
+            notes = "# %s change %s - %s\n\n## What is needed\n%s\n" % (prop, k, txt.split("\n", 1)[0][:140], txt)
+        else:
+            notes = open(npath).read()
         with open(os.path.join(dest, "notes.md"), "w") as f:
             f.write(notes)
         checks = [prop] + extras
